@@ -708,6 +708,60 @@ fn main() {
         drop(tx);
     }
 
+    // ---- pass 3: 5-term left targets (beyond the 3-term alphabet), n = 3, fake index ----
+    let wide_counts = Counters::default();
+    let n_wide = 3usize;
+    let wide_alphabet = target_alphabet(n_wide);
+    let narrow: Vec<Tgt> = if ctx.quick() {
+        wide_alphabet.iter().filter(|t| t.len() == 1).cloned().collect()
+    } else {
+        wide_alphabet.clone()
+    };
+    let vals: Vec<Term> = std::iter::once(None).chain((0..n_wide).map(|c| Some(c as u8))).collect();
+    let mut five: Vec<Tgt> = vec![];
+    vcommon::enumerate::odometer(&[vals.len(); 5], |t| {
+        five.push(t.iter().map(|&i| vals[i]).collect());
+        true
+    });
+    let wide_ids = fake_ids(n_wide);
+    let wide_dags = all_dags(n_wide, n_wide);
+    let mut wide_closures: Vec<(Vec<u64>, Dag)> = vec![];
+    for d in &wide_dags {
+        let anc = d.ancestors_masks();
+        if !wide_closures.iter().any(|(a, _)| *a == anc) {
+            wide_closures.push((anc, d.clone()));
+        }
+    }
+    for (anc, dag) in &wide_closures {
+        let index = FakeIndex { anc: anc.clone() };
+        five.par_iter().for_each(|l| {
+            let lt = to_ref_target(l, &wide_ids);
+            for b in &narrow {
+                let bt = to_ref_target(b, &wide_ids);
+                for r in &narrow {
+                    let rt = to_ref_target(r, &wide_ids);
+                    // the wide target is tried in each of the three positions
+                    for pos in 0..3 {
+                        let (tl, tb, tr, rl, rb, rr) = match pos {
+                            0 => (l, b, r, &lt, &bt, &rt),
+                            1 => (b, l, r, &bt, &lt, &rt),
+                            _ => (b, r, l, &bt, &rt, &lt),
+                        };
+                        let res = run_merge(&index, &|id| fake_index_of(id), rl, rb, rr)
+                            .and_then(|got| judge(anc, tl, tb, tr, &got));
+                        match res {
+                            Ok(v) => wide_counts.record(&v),
+                            Err((sig, msg)) => {
+                                wide_counts.evals.inc();
+                                ctx.violation(&sig, msg, case_json("fake", dag, tl, tb, tr));
+                            }
+                        }
+                    }
+                }
+            }
+        });
+    }
+
     // vacuity: every clause of the oracle must have been exercised
     for (name, c) in [
         ("one side unchanged / both agree", &fake_counts.trivial),
@@ -716,6 +770,7 @@ fn main() {
         ("conflicted input reduced by ancestry", &fake_counts.reduced),
         ("resolved after flattening", &fake_counts.trivial_after_flatten),
         ("real index fast-forward", &real_counts.fast_forward),
+        ("5-term input reduced by ancestry", &wide_counts.reduced),
     ] {
         if c.get() == 0 && ctx.violation_count() == 0 {
             machinery_failure(&format!("vacuous: no case exercised '{name}'"));
@@ -747,18 +802,29 @@ fn main() {
     extra.insert("targets_per_slot".into(), json!(alphabet.len()));
     extra.insert("fake_index_pass".into(), dump(&fake_counts));
     extra.insert("real_index_pass".into(), dump(&real_counts));
+    extra.insert("five_term_pass".into(), dump(&wide_counts));
+    extra.insert(
+        "five_term_pass_shape".into(),
+        json!(format!(
+            "n = {n_wide}: every 5-term list ({}) in each of the three positions x every pair of {} other targets x {} ancestry relations",
+            five.len(),
+            narrow.len(),
+            wide_closures.len()
+        )),
+    );
     extra.insert("real_index_commits".into(), json!(n_real));
     extra.insert("real_index_dags".into(), json!(real_dags.len()));
     extra.insert("real_is_ancestor_pairs_compared".into(), json!(is_ancestor_pairs.get()));
     let cov = Coverage {
-        evaluations: fake_counts.evals.get() + real_counts.evals.get(),
+        evaluations: fake_counts.evals.get() + real_counts.evals.get() + wide_counts.evals.get(),
         distinct_nontrivial: nontrivial,
         rule: format!(
             "every ancestry relation on {n} commits (all {} DAGs, {} distinct closures) x every ordered triple of \
              the {} targets {{absent, normal(c), every 3-term list over {{None, c0..c{}}}}}, each triple once per \
-             relation; non-trivial = no side equals the base and the sides differ (the flattened conflict is \
-             resolved by cancellation, fast-forwarded/reduced by ancestry, or kept). Second pass: the same \
-             triples for n = {n_real} on the real readonly and mutable default index of a TestRepo.",
+             relation; non-trivial (counted in the first pass only) = no side equals the base and the sides differ (the \
+             flattened conflict is resolved by cancellation, fast-forwarded/reduced by ancestry, or kept). Second pass: the same \
+             triples for n = {n_real} on the real readonly and mutable default index of a TestRepo. Third pass: one \
+             5-term target in any of the three positions (n = 3).",
             dags.len(),
             by_closure.len(),
             alphabet.len(),
@@ -773,7 +839,7 @@ fn main() {
             "for conflicted inputs every normal form of the ancestry rewrite rule is accepted (order dependence \
              is documented in the code); when all remaining adds agree, resolving to them is also accepted"
                 .into(),
-            "input targets have at most 3 terms".into(),
+            "input targets have at most 3 terms, except one 5-term target per triple in the third pass".into(),
         ],
         ..Default::default()
     };
